@@ -20,3 +20,38 @@ try:
     print(len(groups), "groups written")
 finally:
     shutil.rmtree(tmp)
+
+# ---- anchor fingerprints (for rename / move detection) -----------------------
+import ast as _ast
+from nc_static.flow import ANCHORS
+from nc_static.source import Program
+
+
+def fingerprint(f):
+    names = set()
+    for n in _ast.walk(f.node):
+        if isinstance(n, _ast.Call):
+            fn = n.func
+            if isinstance(fn, _ast.Name):
+                names.add(fn.id)
+            elif isinstance(fn, _ast.Attribute):
+                names.add("." + fn.attr)
+        elif isinstance(n, _ast.Attribute):
+            names.add("@" + n.attr)
+        elif isinstance(n, _ast.Constant) and isinstance(n.value, str) and 3 <= len(n.value) <= 60:
+            names.add("'" + n.value)
+    return sorted(names)
+
+
+tmp2 = tempfile.mkdtemp()
+try:
+    subprocess.check_call("git -C /repo archive %s netconan | tar -x -C %s" % (rev, tmp2), shell=True)
+    prog = Program(read_tree(tmp2))
+    anchors = []
+    for f in prog.all_functions():
+        if f.name in ANCHORS:
+            anchors.append({"module": f.module.name, "cls": f.cls.name if f.cls else None, "name": f.name, "nparams": len(f.params), "features": fingerprint(f)})
+    json.dump({"revision": rev, "anchors": anchors}, open(os.path.join(HERE, "reference", "anchors.json"), "w"), indent=1)
+    print(len(anchors), "anchor fingerprints written")
+finally:
+    shutil.rmtree(tmp2)
